@@ -76,6 +76,7 @@ static std::string sg(const char* what, const char* kind) { return std::string("
 static void observe(World& w, const std::string& kase)
 {
   auto& m = w.m;
+  SB::dead_queries() = 0;
   // registry exactness (private, read-only): the list holds exactly the created objects in creation order
   {
     std::vector<void*> want;
@@ -160,6 +161,11 @@ static void observe(World& w, const std::string& kase)
   }
 }
 
+static void observe_dead(const std::string& kase)
+{
+  if (SB::dead_queries() != 0) viol(sg("registry", "consulted-sandbox-that-is-not-created"), kase, "the library asked a sandbox object that is not created whether an address lies in its memory (" + std::to_string(SB::dead_queries()) + " queries)");
+  SB::dead_queries() = 0;
+}
 static bool apply(World& w, const Op& op)
 {
   auto& m = w.m;
@@ -268,6 +274,7 @@ static bool apply(World& w, const Op& op)
   }
   long long before = g_nviol;
   observe(w, w.hist);
+  observe_dead(w.hist);
   return g_nviol == before;
 }
 
